@@ -253,14 +253,17 @@ Theorem C08_partial_race_free_core_generated :
 Proof. exact CacheLockset.cache_core_race_free. Qed.
 
 (* known finding K1, DERIVED from the source: the full skeleton fails the lockset check, and in every offending
-   (writer method, other method, field) triple the unprotected WRITER is Clear or Resize.  So K1 is the only
-   lockset failure of the cache; a new one (an RLock dropped in Sweep or in getCurrentPartition, a new unlocked
-   write) makes this theorem or the previous one stop compiling. *)
+   (writer method, other method, field) triple the unprotected WRITER is Clear or Resize, the other party is one
+   of the methods that read without any lock (CacheLockset.k1_unlocked_readers = Capacity, Contains, Get, Set,
+   Delete, Len, Keys, Values, Resize — never Sweep or getCurrentPartition, which take currentPartitionMux) and the
+   field is one of partitions, valuePartitionIndex, maxPartitions, partitionCapacity (CacheLockset.k1_fields).
+   So K1 is the only lockset failure of the cache; a new one (the RLock dropped in Sweep or in
+   getCurrentPartition's fast path, a new unlocked write) makes this theorem or the previous one stop compiling. *)
 Theorem C08_known_races_are_clear_resize_only :
   Conc.lockset_check CacheSkeleton_gen.cache_skeleton = false
   /\ forall w o f, In (w, o, f) (LocksetDiag.offending_all CacheSkeleton_gen.cache_skeleton) ->
-       In w CacheLockset.k1_methods.
-Proof. split; [exact CacheLockset.cache_full_lockset_false|exact CacheLockset.cache_unprotected_writers_are_clear_resize]. Qed.
+       In w CacheLockset.k1_methods /\ In o CacheLockset.k1_unlocked_readers /\ In f CacheLockset.k1_fields.
+Proof. split; [exact CacheLockset.cache_full_lockset_false|exact CacheLockset.cache_k1_exact]. Qed.
 
 (* the list of offending triples is a complete account: a skeleton without any is race free *)
 Theorem C08_offending_complete (sk : Conc.skeleton) : LocksetDiag.offending_all sk = [] -> Conc.race_free sk.
